@@ -124,3 +124,65 @@ def acyclicB (st : StructTable) : Bool :=
     e.2.all fun p => (st.lookup p.ty.base).isNone || structDepth st st.length p.ty.base < structDepth st st.length e.1
 
 end Martian.ResolverStatic
+
+namespace Martian.ResolverStatic
+open Martian.Dataflow
+
+/-! ## programs with map calls of stages over array literals -/
+
+def isStageB (P : Program) (callee : String) : Bool :=
+  match P.callables.lookup callee with
+  | some (.stage _ _) => true
+  | _ => false
+
+def arrLen : Exp → Option Nat
+  | .arr es => some es.length
+  | _ => none
+
+def mappedOkB (st : StructTable) (n : Nat) (P : Program) (sT cT : String → Ty) (c : Call) : Bool :=
+  c.mapped && c.disabled.isNone && isStageB P c.callee &&
+  (match c.binds.find? (·.split) with
+   | some b0 =>
+     match arrLen b0.exp with
+     | some k => 0 < k && c.binds.all fun b => !b.split || arrLen b.exp == some k
+     | none => false
+   | none => false) &&
+  ((P.insOf c.callee).any fun p =>
+    match c.binds.find? (fun b => b.param == p.name) with
+    | some b => b.split
+    | none => false) &&
+  (P.insOf c.callee).all fun p =>
+    match c.binds.find? (fun b => b.param == p.name) with
+    | some b => hasTyB st n sT cT (if b.split then { p.ty with arrDim := p.ty.arrDim + 1 } else p.ty) b.exp
+    | none => true
+
+def callOkMB (st : StructTable) (n : Nat) (P : Program) (sT cT : String → Ty) (c : Call) : Bool :=
+  (callOkB st n P.insOf sT cT c && c.binds.all fun b => !b.split) || mappedOkB st n P sT cT c
+
+def callTyMB (c : Call) : Ty := if c.mapped then ⟨c.callee, 0, 1⟩ else ⟨c.callee, 0, 0⟩
+
+def callsOkMB (st : StructTable) (n : Nat) (P : Program) (sT : String → Ty) :
+    List (String × Ty) → List Call → Bool
+  | _, [] => true
+  | L, c :: cs => callOkMB st n P sT (callTyOfB L) c && callsOkMB st n P sT (L ++ [(c.id, callTyMB c)]) cs
+
+def pipelineOkMB (st : StructTable) (n : Nat) (P : Program) (pins outs : List Param)
+    (calls : List Call) (ret : List (String × Exp)) : Bool :=
+  callsOkMB st n P (selfTyOfB pins) [] calls &&
+  outs.all fun p =>
+    match ret.lookup p.name with
+    | some e => hasTyB st n (selfTyOfB pins) (callTyOfB (calls.map fun c => (c.id, callTyMB c))) p.ty e
+    | none => true
+
+/-- decidable hypotheses of `resolver_refines_den_staticmap_checked` -/
+def wellTypedMB (P : Program) : Bool :=
+  structsOkB P.table &&
+  (P.callables.all fun e => P.table.lookup e.1 == some e.2.outs) &&
+  (P.callables.all fun e =>
+    match e.2 with
+    | .stage _ _ => true
+    | .pipeline pins outs calls ret => pipelineOkMB P.table P.table.length P pins outs calls ret) &&
+  callOkB P.table P.table.length P.insOf (selfTyOfB []) (callTyOfB []) P.top &&
+  P.top.binds.all fun b => !b.split
+
+end Martian.ResolverStatic
